@@ -257,7 +257,7 @@ class ScoreThreshold(FragmentContract):
     props = ('C12',)
     loop_ordinal = None
     key = 'tangermeme.tools.fimo.fimo#threshold'
-    stmt_block = ('_score_to_pvals_lengths.append(len(_score_to_pvals[i]))', 3)
+    stmt_block = ('_score_to_pvals_lengths.append(len(_score_to_pvals[i]))', ('until', 'if len(idx) > 0'))
 
     def scopes(self, cfg):
         return [{'default': 3}, {'default': 1}, {'default': 4}]
